@@ -175,10 +175,24 @@ func (Segment).Rewrite
                                            ==> has(dst.SurviveOffsets, recOffset(srcLog.gfile, i)))
 
 func (Segment).ReindexReader
-    flags noframe only_sync
-    assigns fPath, fsDirty, fsExists, index.Writer.pos
+    flags noframe only_sync only_derive
+    requires[derive_ok] log != nil && log.gfile == fsContent[s.Log] && wfLog(log.gfile) && tsDef(log.gfile)
+                        && (log.v == message.V1 || log.v == message.V2) && recPos(log.gfile, 0) == ite(log.v == message.V1, 0, 8)
+    assigns fPath, fsDirty, fsExists, fsContent, fData, fSize, index.Writer.pos
     ensures[sync_clean] err == nil ==> !fsDirty[s.Index]
+    // C11: the index rebuilt from a log file is THE index derived from it (offsets, positions, running-maximum
+    // timestamps, key hashes), for a file that parses completely; a damaged file is an error
+    ensures[derive_items]   err == nil ==> derived(ret0, old(fsContent)[s.Log], params)
+    ensures[derive_damaged] !tailClean(old(fsContent)[s.Log]) ==> err != nil
+    // ... and exactly that index is written to the segment's index file, under the same parameters
+    assert[derive_written]  arg0 == s.Index && arg1 == s.Offset && arg2 == version && arg3 == params && arg4 == newIndex at call index.Write 1
     loop 1
       invariant[sync] true
+      invariant[derive_file]  log != nil && log.gfile == old(fsContent)[s.Log] && wfLog(log.gfile) && tsDef(log.gfile) && atIdx(log.gfile, position)
+      invariant[derive_count] len(newIndex) == recIdx(log.gfile, position) && indexTime == ite(len(newIndex) > 0, newIndex[len(newIndex)-1].Timestamp, 0)
+      invariant[derive_items] forall k :: 0 <= k && k < len(newIndex) ==>
+                                  newIndex[k].Position == recPos(log.gfile, k) && newIndex[k].Offset == recOffset(log.gfile, k)
+                                  && newIndex[k].Timestamp == ite(params.Times, recTs(log.gfile, k), 0)
+                                  && newIndex[k].KeyHash == ite(params.Keys, recHash(log.gfile, k), 0)
 
 @*/
